@@ -10,10 +10,11 @@
      json_keepnumbers_identity : with KeepNumbers every lexeme, numbers included, is byte-identical;
      json_never_longer_refuted : "never longer than the input" is FALSE of the faithful model — witness 7E-3,
         rendered 0.007 (known finding K48, replayed on the implementation by the check).
-   Not proved here: that num_text l denotes the same rational as l (that is C08's number_exact composed with
-   the zero repair) and that the parser of the parse/v2 dependency delivers events_of v for every text of v
+   json_number_value / json_number_has_int_part: num_text l is in the number grammar, denotes the same rational as l and
+   has an integer part (C08's number_exact composed with the zero repair).
+   Not proved here: that the parser of the parse/v2 dependency delivers events_of v for every text of v
    (the harness checks this on every generated document: correspondence "json_tree"). *)
-From MV Require Import Base.MvBytes Num.NumModel Json.JsonModel Json.JsonSpec Json.JsonProofs.
+From MV Require Import Base.MvBytes Num.NumModel Num.NumSpec Json.JsonModel Json.JsonSpec Json.JsonProofs Json.JsonNumber.
 
 Theorem json_structure_preserved : forall keepnumbers v, wf_jvalue v ->
   json_minify_events keepnumbers (events_of SValue v) = compact (num_text keepnumbers) v.
@@ -30,6 +31,19 @@ Theorem json_never_longer_refuted :
     (length (json_minify_events false (events_of SValue v)) > length (compact (fun l => l) v))%nat.
 Proof. exists (JNum [55; 69; 45; 51]). split; [reflexivity | vm_compute; lia]. Qed.
 Print Assumptions json_never_longer_refuted.
+
+(* the numbers: what is written for a number lexeme (Number(text, 0) + the repair of a leading ".") is in the number grammar,
+   denotes exactly the same rational and has a digit before the dot as RFC 8259 requires (C08's number_exact composed
+   with the repair; the bound 10^25 on the length is the model artefact explained in Props/C08.v) *)
+Theorem json_number_value : forall l p, lex_number l = Some p -> starts_number l = true -> zlen l <= 10 ^ 25 ->
+  exists p', lex_number (num_text false l) = Some p' /\ val_eq (value p') (value p).
+Proof. exact JsonNumber.json_number_value. Qed.
+Print Assumptions json_number_value.
+
+Theorem json_number_has_int_part : forall l p, lex_number l = Some p -> starts_number l = true -> zlen l <= 10 ^ 25 ->
+  match num_text false l with 46 :: _ => False | 45 :: 46 :: _ => False | _ => True end.
+Proof. exact JsonNumber.json_number_has_int_part. Qed.
+Print Assumptions json_number_has_int_part.
 
 (* non-vacuity: a nested document with duplicate keys meets wf_jvalue and is rendered as expected *)
 Example json_structure_nonvacuous :
